@@ -3,7 +3,8 @@ import numpy as np
 
 from .read import SgzReader
 from .version import SeismicZfpVersion
-from .utils import pad, int_to_bytes, np_float_to_bytes, np_float_to_bytes_signed, coord_to_index
+from .utils import (pad, int_to_bytes, np_float_to_bytes, np_float_to_bytes_signed, coord_to_index,
+                    bytes_to_double, double_to_bytes)
 from .sgzconstants import DISK_BLOCK_BYTES, SEGY_TEXT_HEADER_BYTES
 
 
@@ -81,6 +82,9 @@ class SgzCropper(SgzReader):
         header[8:12] = int_to_bytes(len_xlines)
         header[12:16] = int_to_bytes(len_ilines)
         header[16:20] = np_float_to_bytes_signed(np.int32(self.zslices[zslices_index_range[0]]))
+        if bytes_to_double(header[92:100]) != 0:
+            # Files converted from ZGY keep the sample axis in double precision (bytes 84-99): move its start too
+            header[84:92] = double_to_bytes(float(self.zslices[zslices_index_range[0]]))
         header[20:24] = np_float_to_bytes_signed(np.int32(self.xlines[xline_index_range[0]]))
         header[24:28] = np_float_to_bytes_signed(np.int32(self.ilines[iline_index_range[0]]))
         header[56:60] = int_to_bytes(compressed_data_length_diskblocks)
